@@ -141,6 +141,11 @@ class Builder:
             elif form == "inline":
                 ref = copy.deepcopy(cdesc)
                 integrated_deps[name] = copy.deepcopy(cdesc)
+            elif form == "alias":
+                # ONE object named twice (digest reference and integrated member): what a YAML description with an anchor and
+                # an alias loads as; written to a file it is dumped with &id / *id
+                ref = cdesc
+                integrated_deps[name] = cdesc
             else:
                 path = self._file(creator(copy.deepcopy(cdesc)), f"dep_{self.n}_{level}_{k}_{name.strip('#')}.suit")
                 ref = path
@@ -294,5 +299,5 @@ def random_shape(rng, depth=0, maxdepth=2, with_cid=False, small=False):
     if depth < maxdepth and rng.random() < (0.6 if depth == 0 else 0.4):
         for i in range(rng.choice([1, 1, 2])):
             sh["deps"].append([f"#dep{depth}{i}", random_shape(rng, depth + 1, maxdepth, small=True),
-                               rng.choice(["inline", "path"]), rng.choice(ALGS)])
+                               rng.choice(["inline", "path", "alias"]), rng.choice(ALGS)])
     return sh
